@@ -88,7 +88,7 @@ other than `xml:` / `xlink:`, `xmlns:xlink` excepted) or a default-valued attrib
 dropped otherwise; what is written is exactly one attribute of the same name. -/
 theorem attrs_kept (e : Env) (o : SvgOpts) (st : St) (n : List Char) (v : Option (List Char)) :
     ((attrStep e.num o st n v).1 = [] ∧
-        (isDefaultAttr o st.tag n (attrVal1 e.num n v) = true ∨ foreignAttr n = true)) ∨
+        (isDefaultAttr o st.tag st.mime n (attrVal1 e.num n v) = true ∨ foreignAttr n = true)) ∨
     (∃ p w, (attrStep e.num o st n v).1 = [p] ∧ fill e p = mkAttr n w) := by
   rcases attrEmit_shape e.num o st n (attrVal1 e.num n v) with h | ⟨p, h⟩
   · left
@@ -103,32 +103,31 @@ theorem attrs_kept (e : Env) (o : SvgOpts) (st : St) (n : List Char) (v : Option
 /-- the default-valued attributes that are removed, with the value they must have after the rewrite of `buffer.go`
 and `shortenDimension`: on `svg` elements `xmlns` (any value; only when embedded in HTML), `version="1.1"`,
 `x="0"`, `y="0"`, `preserveAspectRatio="xMidYMid meet"`, `baseProfile="none"`,
-`contentScriptType="application/ecmascript"`, `contentStyleType="text/css"`; on `style` elements `type="text/css"` -/
-theorem default_attrs_listed (o : SvgOpts) (tag n val : List Char) (h : isDefaultAttr o tag n val = true) :
+`contentScriptType="application/ecmascript"`, `contentStyleType="text/css"`; on `style` elements `type="text/css"`
+while the default style type (`contentStyleType` of the last `svg` start tag, initially `text/css`) is `text/css` -/
+theorem default_attrs_listed (o : SvgOpts) (tag mime n val : List Char) (h : isDefaultAttr o tag mime n val = true) :
     (tag = nSvg ∧ ((o.inline = true ∧ n = ['x', 'm', 'l', 'n', 's']) ∨
       (n, val) ∈ [("version".toList, "1.1".toList), (['x'], ['0']), (['y'], ['0']),
         ("preserveAspectRatio".toList, "xMidYMid meet".toList), ("baseProfile".toList, "none".toList),
         ("contentScriptType".toList, "application/ecmascript".toList),
         ("contentStyleType".toList, "text/css".toList)])) ∨
-    (tag = nStyle ∧ n = "type".toList ∧ val = "text/css".toList) := by
-  simp only [isDefaultAttr, cssMime, Bool.or_eq_true, Bool.and_eq_true, beq_iff_eq] at h
-  rcases h with ⟨h1, h2⟩ | ⟨⟨h1, h2⟩, h3⟩
+    (tag = nStyle ∧ n = "type".toList ∧ val = "text/css".toList ∧ mime = cssMime) := by
+  simp only [isDefaultAttr, Bool.or_eq_true, Bool.and_eq_true, beq_iff_eq] at h
+  rcases h with ⟨h1, h2⟩ | ⟨⟨⟨h1, h2⟩, h3⟩, h4⟩
   · left
     refine ⟨h1, ?_⟩
     rcases h2 with ((((((h | h) | h) | h) | h) | h) | h) | h
     · exact Or.inl h
     all_goals (right; obtain ⟨a, b⟩ := h; subst a b; decide)
-  · right; exact ⟨h1, h2, h3⟩
+  · right; exact ⟨h1, h2, h3, h4⟩
 
-/-- **style_type_default**: full statement — `type="text/css"` on a style element is removed only while the
-default style type (`contentStyleType`) is `text/css` -/
-def style_type_full : Prop :=
-  ∀ (o : SvgOpts) (st : St), isDefaultAttr o nStyle "type".toList "text/css".toList = true →
-    st.tag = nStyle → st.mime = cssMime
-
-/-- the removal does not look at `defaultStyleType` (K-C05B-7) -/
-theorem style_type_counterexample : ¬ style_type_full := fun h =>
-  absurd (h ⟨false, false⟩ ⟨nStyle, "text/x".toList⟩ (by decide) rfl) (by decide)
+/-- **style_type_default** (full since /repo 4e22b54; former finding K-C05B-7): `type="text/css"` on a style element is
+removed only while the default style type is `text/css` -/
+theorem style_type_default (o : SvgOpts) (st : St) (val : List Char)
+    (h : isDefaultAttr o nStyle st.mime ['t', 'y', 'p', 'e'] val = true) : val = cssMime ∧ st.mime = cssMime := by
+  have hs : (nStyle == nSvg) = false := by decide
+  simp only [isDefaultAttr, hs, Bool.false_and, Bool.false_or, Bool.and_eq_true, beq_iff_eq] at h
+  exact ⟨h.1.2, h.2⟩
 
 /-- **only_metadata_dropped**: a start tag is removed together with its subtree exactly when it is a `metadata`
 element or an element in a foreign namespace — or (K-C05-7) a `defs` start tag whose second following token is `/>` -/
@@ -199,14 +198,19 @@ example : dimension "10.0PX".toList = (4, 2) ∧ dimension "0.0%".toList = (3, 1
     (shortenDim idEnv.num "5.0px".toList).1 = ['5'] ∧ (shortenDim idEnv.num "1e3Em".toList).1 = "1e3em".toList := by
   decide +kernel
 
-/-- full statement: the dimension rewrite is applied only to attributes whose value is a length or number -/
-def dimension_text_full : Prop :=
-  ∀ (n : List Char) (v : List Char), n ∈ [['u', 'n', 'i', 'c', 'o', 'd', 'e'], "glyph-name".toList, "result".toList] →
-    attrVal1 idEnv.num n (some v) = prepVal (some v)
+/-- the dimension rewrite is not applied to `id`, `class`, `href`, `font-family`, prefixed names and (since /repo
+434f247) `unicode`, `glyph-name`, `result`, `in`, `in2`, `name`, `systemLanguage`, `title` -/
+theorem dimension_text_ok (num : List Char → List Char) (n : List Char) (v : Option (List Char))
+    (h : isNameAttr n = true) : attrVal1 num n v = prepVal v := by
+  simp [attrVal1, h]
 
-/-- `unicode="1.0"` becomes `unicode="1"` (K-C05B-6) -/
+/-- full statement: the dimension rewrite is never applied to a text-valued attribute (the specification's list) -/
+def dimension_text_full : Prop :=
+  ∀ (n : List Char) (v : List Char), isLiteralAttr n = true → attrVal1 idEnv.num n (some v) = prepVal (some v)
+
+/-- `data-x="1.0"` becomes `data-x="1"` (K-C05B-6, narrowed by 434f247: `data-*`, `aria-*`, `lang` are still rewritten) -/
 theorem dimension_text_counterexample : ¬ dimension_text_full := fun h =>
-  absurd (h ['u', 'n', 'i', 'c', 'o', 'd', 'e'] ['"', '1', '.', '0', '"'] (by decide)) (by decide +kernel)
+  absurd (h ['d', 'a', 't', 'a', '-', 'x'] ['"', '1', '.', '0', '"'] (by decide)) (by decide +kernel)
 
 /-- **color_attr_ok**: the colour branch (`css.ShortenColorHex`, `css.ShortenColorName`, `#aabbcc` → `#abc`) keeps
 the sRGB triple of every keyword / hex colour, and what is not a colour before is not a colour afterwards
@@ -229,10 +233,10 @@ def attr_value_full : Prop :=
     Verif.Spec.Xml.wfAttr raw = true → (attrStep e.num o st n (some raw)).1 = [p] → fill e p = mkAttr n w →
       valRel n (some raw) (some w) = true
 
-/-- … which is false: text-valued attributes are rewritten as lengths (K-C05B-6) -/
+/-- … which is false: `data-*` / `aria-*` / `lang` values are rewritten as lengths (K-C05B-6) -/
 theorem attr_value_counterexample : ¬ attr_value_full := fun h =>
-  absurd (h idEnv ⟨false, false⟩ ⟨['g'], cssMime⟩ ['u', 'n', 'i', 'c', 'o', 'd', 'e'] ['"', '1', '.', '0', '"']
-    (.tok (mkAttr ['u', 'n', 'i', 'c', 'o', 'd', 'e'] ['"', '1', '"'])) ['"', '1', '"']
+  absurd (h idEnv ⟨false, false⟩ ⟨['g'], cssMime⟩ ['d', 'a', 't', 'a', '-', 'x'] ['"', '1', '.', '0', '"']
+    (.tok (mkAttr ['d', 'a', 't', 'a', '-', 'x'] ['"', '1', '"'])) ['"', '1', '"']
     (by decide) (by decide +kernel) rfl) (by decide +kernel)
 
 /-! ## character data -/
@@ -240,31 +244,42 @@ theorem attr_value_counterexample : ¬ attr_value_full := fun h =>
 /-- full statement: the text branch keeps character data well-formed -/
 def text_chars_full : Prop :=
   ∀ d : List Char, Verif.Spec.Xml.wfChars d = true →
-    Verif.Spec.Xml.wfChars (trimWs (Verif.Model.Xml.replWsEnt Verif.Gen.XmlTables.entities [] d)) = true
+    Verif.Spec.Xml.wfChars (trimWs (Verif.Model.Xml.replWsEnt Verif.Gen.XmlTables.entities Verif.Gen.XmlTables.textRev d)) = true
 
-/-- `&#60;` is decoded to a literal `<` (K-C05B-2: the text branch passes no reverse-entity map) -/
+/-- `]]&gt;` is decoded to `]]>`, which character data must not contain (K-C05B-11); references to `<` and `&` stay
+escaped since /repo 4398e57 (former K-C05B-2) -/
 theorem text_chars_counterexample : ¬ text_chars_full := fun h =>
-  absurd (h ['a', '&', '#', '6', '0', ';', 'b'] (by decide)) (by decide)
+  absurd (h [']', ']', '&', 'g', 't', ';'] (by decide)) (by decide)
+
+example : trimWs (Verif.Model.Xml.replWsEnt Verif.Gen.XmlTables.entities Verif.Gen.XmlTables.textRev
+    "a &#60; b &#38; c".toList) = "a &lt; b &amp; c".toList := by decide +kernel
 
 /-! ## `foreignObject` -/
 
-/-- what `printTag` copies is copied verbatim: in the branch of `>` with `tag = foreignObject` the tokens up to the
-matching end tag are written as they are -/
+/-- what `printTag` copies is copied verbatim: in the branch of `>` with `tag = foreignObject` (element not
+collapsed) the tokens up to the matching end tag are written as they are -/
 theorem foreign_object_verbatim (num : List Char → List Char) (o : SvgOpts) (st : St) (r : List STok)
-    (h : st.tag = nForeignObject) :
+    (h : st.tag = nForeignObject) (hc : collapseSkip r = none) :
     plan num o st 0 (STok.startTagClose :: r) =
-      PTok.tok (if (collapseSkip r).isSome then STok.startTagCloseVoid else STok.startTagClose) ::
-        (((r.drop ((collapseSkip r).getD 0)).take (printLen 0 false (r.drop ((collapseSkip r).getD 0)))).map PTok.tok ++
-          plan num o st ((collapseSkip r).getD 0 + printLen 0 false (r.drop ((collapseSkip r).getD 0))) r) := by
-  simp [plan, h]
+      PTok.tok STok.startTagClose ::
+        ((r.take (printLen 0 false r)).map PTok.tok ++ plan num o st (printLen 0 false r) r) := by
+  simp [plan, h, hc]
+
+/-- a processing instruction other than the XML declaration is copied token by token (since /repo 5562ac0) -/
+theorem pi_verbatim (num : List Char → List Char) (o : SvgOpts) (st : St) (n : List Char) (r : List STok)
+    (h : n ≠ ['x', 'm', 'l']) :
+    plan num o st 0 (STok.startTagPI n :: r) =
+      PTok.tok (STok.startTagPI n) :: ((r.take (piLen r)).map PTok.tok ++ plan num o st (piLen r) r) := by
+  have : (n == ['x', 'm', 'l']) = false := by simpa using h
+  simp [plan, this]
 
 /-- tokens of `<svg:g><foreignObject></foreignObject></svg:g>` (K-C05B-8) -/
 def exEmptyFO : List STok :=
   [.startTag "svg:g".toList, .startTagClose, .startTag "foreignObject".toList, .startTagClose,
    .endTag "</foreignObject>".toList "foreignObject".toList, .endTag "</svg:g>".toList "svg:g".toList]
 
-/-- the collapse of an empty `foreignObject` still enters `printTag`: the rest of the document is copied verbatim,
-an `svg:` end tag keeps the prefix its start tag lost -/
-example : svgMinify idEnv ⟨false, false⟩ exEmptyFO = "<g><foreignObject/></svg:g>".toList := by decide +kernel
+/-- since /repo f52aabe the collapse of an empty `foreignObject` closes the element (`tag = 0`): `printTag` is not
+entered and the `svg:` end tag loses its prefix like its start tag (former K-C05B-8) -/
+example : svgMinify idEnv ⟨false, false⟩ exEmptyFO = "<g><foreignObject/></g>".toList := by decide +kernel
 
 end Verif.Props.C05B
